@@ -1,5 +1,248 @@
-(* Properties/C17.v — placeholder while the proofs are being built. *)
-From Synnax Require Import Core.Gorp Core.GorpSpec.
-Theorem C17_placeholder : True.
-Proof. exact I. Qed.
-Print Assumptions C17_placeholder.
+(* Properties/C17.v — Indexed queries equal full scans; uncommitted writes stay private,
+   aborts vanish (x/go/gorp). Only statements, each closed by [exact] (or short glue), each
+   followed by Print Assumptions.
+
+   Objects: [st]/[step]/[run] (Core/Gorp.v) copy the Go index machinery; [sst]/[sp_step]/[sp_run]
+   (Core/GorpSpec.v) are the specification: a table plus one write set per open transaction.
+   [op_in_scope] (Core/GorpRefineProofs.v) excludes exactly: the crossed commit [Commit2] (finding
+   F22, refuted below), replicated rows stored under a foreign key, and filter-driven writes whose
+   MatchKeys leaves repeat a key / whose Update filter has no index leaf (bare-keys NotFound
+   contract). The initial state is the one OpenTable produces over arbitrary pre-existing rows
+   (bulk populate); [get_skips_repeated_values] is re-read from index.go on every run. *)
+From Coq Require Import NArith ZArith List.
+From stdpp Require Import gmap.
+From Synnax Require Import Core.Gorp Core.GorpSpec Core.GorpListProofs Core.GorpLookupProofs
+     Core.GorpSortedProofs Core.GorpDeltaProofs Core.GorpFilterProofs Core.GorpSystemProofs
+     Core.GorpRefineProofs Core.GorpOrderedProofs Core.GorpPropsProofs Generated.Consts_C17.
+Import ListNotations.
+Local Open Scope Z_scope.
+
+(* (1) LookupIndex: over every sequence of committed-state mutations, a key is in the bucket of v
+   exactly when the reverse map sends it to v, buckets are duplicate-free, none is empty. *)
+Theorem C17_lookup_invariant : forall ms,
+  let l := fold_left l_apply ms l_empty in
+  l_wf l /\ l_rev l = fold_left rev_apply ms ∅ /\
+  forall v k, k ∈ l_get1 v l <-> l_rev l !! k = Some v.
+Proof.
+  intros ms l. pose proof (l_history_wf ms l_empty l_wf_empty) as H. split; [done|].
+  split; [apply l_history_rev|]. intros v k. by apply l_get1_spec.
+Qed.
+Print Assumptions C17_lookup_invariant.
+
+(* (2) SortedIndex: sort.Search returns the least index of a monotone predicate; over every
+   sequence of mutations the slice stays sorted by value, keys unique, in step with the reverse
+   map; Get answers exactly the keys of a value. *)
+Theorem C17_binary_search : forall (f : nat -> bool) n,
+  (forall x y, (x <= y < n)%nat -> f x = true -> f y = true) ->
+  (search n f <= n)%nat /\ (forall x, (x < search n f)%nat -> f x = false) /\
+  (forall x, (search n f <= x < n)%nat -> f x = true).
+Proof. exact search_spec. Qed.
+Print Assumptions C17_binary_search.
+
+Theorem C17_sorted_invariant : forall ms,
+  let x := fold_left s_apply ms s_empty in
+  s_wf x /\ forall v k, k ∈ s_get1 v x <-> s_rev x !! k = Some v.
+Proof.
+  intros ms x. pose proof (s_history_wf ms s_empty s_wf_empty) as H. split; [done|].
+  intros v k. by apply s_get1_spec.
+Qed.
+Print Assumptions C17_sorted_invariant.
+
+(* (3) delta merge: a key staged in the transaction's delta is decided by the delta alone (live
+   with a listed value: in; deleted or moved to an unlisted value: out); any other key by the
+   committed answer; no duplicates. *)
+Theorem C17_merge_spec : forall committed vs d k,
+  d_wf d ->
+  (k ∈ d_merge committed vs d <->
+   match d_state d !! k with
+   | None => k ∈ committed
+   | Some None => False
+   | Some (Some v) => v ∈ vs
+   end) /\ (NoDup committed -> NoDup (d_merge committed vs d)).
+Proof. intros. split; [by apply d_merge_spec|apply d_merge_nodup]. Qed.
+Print Assumptions C17_merge_spec.
+
+(* (4) filter machinery alone: for ANY index answers that are complete for the reader's view,
+   every filter tree executed through And/Or/Not/materialize/intersect/union/execKeys returns
+   exactly the rows the scan with the denotation returns. *)
+Theorem C17_filter_exec_eq_scan : forall env (v : table) f,
+  key_ok v -> env_ok env v ->
+  (forall r, r ∈ q_rows (exec_query env v (build f)) <-> r ∈ List.filter (holds f) (sorted_rows v)) /\
+  (env_nodup env -> nodup_keys f = true ->
+   q_rows (exec_query env v (build f)) ≡ₚ List.filter (holds f) (sorted_rows v)).
+Proof. intros. split; [intros r; by apply exec_query_rows|by apply exec_query_perm]. Qed.
+Print Assumptions C17_filter_exec_eq_scan.
+
+(* (5) the system invariant holds after OpenTable over any pre-existing rows and after every
+   history in scope: committed indexes are a function of the committed table, every delta mirrors
+   its transaction's write set. *)
+Theorem C17_invariant_all_histories : forall m1 seed ops,
+  Forall op_in_scope ops -> coh (run (init m1 get_skips_repeated_values seed) ops).
+Proof. intros m1 seed ops H. by apply reach_coh. Qed.
+Print Assumptions C17_invariant_all_histories.
+
+(* (6) THE PROPERTY, first sentence: in every reachable state, for every reader (the DB or any
+   transaction, with whatever pending writes) and every filter tree, the indexed execution
+   returns exactly the rows of the full scan with the equivalent predicate; each once, with equal
+   Count, when no MatchKeys leaf repeats a key; an index-leaf query never fails and Exists agrees. *)
+Theorem C17_index_eq_scan : forall m1 seed ops t f,
+  Forall op_in_scope ops ->
+  let s := run (init m1 get_skips_repeated_values seed) ops in
+  (forall r, r ∈ q_rows (run_query s t (build f)) <-> r ∈ q_rows (run_query s t (mk_pred (holds f)))) /\
+  (nodup_keys f = true ->
+   q_rows (run_query s t (build f)) ≡ₚ q_rows (run_query s t (mk_pred (holds f))) /\
+   q_cnt (run_query s t (build f)) = q_cnt (run_query s t (mk_pred (holds f)))) /\
+  (has_idx f = true ->
+   q_err (run_query s t (build f)) = 0%N /\
+   q_ex (run_query s t (build f)) = negb (Nat.eqb (length (q_rows (run_query s t (build f)))) 0)).
+Proof. exact index_eq_scan. Qed.
+Print Assumptions C17_index_eq_scan.
+
+(* (7) ordered cursor pagination (readers without pending writes): the unlimited walk is a
+   permutation of the scan with the cursor predicate, ordered by the indexed value in the walk
+   direction; a page is its first [limit] rows; a Where filter post-filters the page. *)
+Theorem C17_ordered_pagination : forall m1 seed ops t desc cursor limit fo,
+  Forall op_in_scope ops ->
+  let s := run (init m1 get_skips_repeated_values seed) ops in
+  view s t = rows s ->
+  full_walk s desc cursor ≡ₚ sp_select (abs s) t (ord_holds desc cursor None) /\
+  lsorted (dir_rows_leb desc) (full_walk s desc cursor) /\
+  exec_ordered (renv_of s t) (view s t) (si s) desc cursor limit (option_map build fo) =
+  List.filter (fun r => match fo with Some f => holds f r | None => true end)
+              (lim_take limit (full_walk s desc cursor)).
+Proof.
+  intros m1 seed ops t desc cursor limit fo Ho s Hv.
+  destruct (reach_coh m1 seed ops Ho) as [Hc _].
+  split; [by apply full_walk_perm|]. split; [by apply full_walk_sorted|by apply page_spec].
+Qed.
+Print Assumptions C17_ordered_pagination.
+
+(* (8) refinement: the abstraction of the model state (forget indexes and deltas) follows the
+   specification step by step; so every answer is the specification's answer over the reader's
+   own view = committed table overlaid with the reader's own write set. *)
+Theorem C17_refines_spec : forall m1 seed ops t f,
+  Forall op_in_scope ops ->
+  let s := run (init m1 get_skips_repeated_values seed) ops in
+  let sp := sp_run (sp_init seed) ops in
+  abs s = sp /\
+  (forall r, r ∈ q_rows (run_query s t (build f)) <-> r ∈ sp_select sp t (holds f)) /\
+  (nodup_keys f = true -> q_rows (run_query s t (build f)) ≡ₚ sp_select sp t (holds f)).
+Proof.
+  intros m1 seed ops t f Ho s sp. destruct (reach_coh m1 seed ops Ho) as [_ Ha].
+  split; [exact Ha|]. by apply answers_spec.
+Qed.
+Print Assumptions C17_refines_spec.
+
+(* (9) isolation: a reader's answers depend on the committed table and its own write set only;
+   its own uncommitted write is visible to it and to no other reader. *)
+Theorem C17_isolation : forall sp sp' t u k w p,
+  (sp_rows sp = sp_rows sp' -> sp_txs sp !! t = sp_txs sp' !! t -> sp_select sp t p = sp_select sp' t p) /\
+  sp_view (sp_write (S t) k w sp) (S t) !! k = w /\
+  (u ≠ S t -> sp_view (sp_write (S t) k w sp) u = sp_view sp u).
+Proof.
+  intros. split; [apply isolation_frame|]. split; [apply own_write_visible|apply others_write_invisible].
+Qed.
+Print Assumptions C17_isolation.
+
+(* (10) commit visibility: after commit every other reader sees the committed writes (unless it
+   has itself overwritten the key in its own open transaction). *)
+Theorem C17_commit_visible : forall sp t u k,
+  u ≠ S t ->
+  sp_view (sp_commit (S t) sp) u !! k =
+  match (match u with O => None | _ => default ∅ (sp_txs sp !! u) !! k end) with
+  | Some own => own
+  | None => match default ∅ (sp_txs sp !! S t) !! k with
+            | Some w => w
+            | None => sp_rows sp !! k
+            end
+  end.
+Proof. exact commit_visible. Qed.
+Print Assumptions C17_commit_visible.
+
+(* (11) abort: nobody sees the aborted writes; in the index machinery the committed table, both
+   committed indexes and every other transaction's batch and deltas are exactly what they were
+   before the transaction's first operation, and no delta or batch of it remains. *)
+Theorem C17_abort_vanishes : forall t ops s sp u,
+  Forall (by_tx (S t)) ops ->
+  (let s' := abort (S t) (run s ops) in
+   committed_part s' = committed_part s /\ (lov s', sov s', txs s') = others (S t) s /\
+   lov s' !! S t = None /\ sov s' !! S t = None /\ txs s' !! S t = None) /\
+  sp_rows (sp_step sp (Abort (S t))) = sp_rows sp /\
+  (u ≠ S t -> sp_view (sp_step sp (Abort (S t))) u = sp_view sp u) /\
+  sp_view (sp_step sp (Abort (S t))) (S t) = sp_rows sp.
+Proof. intros t ops s sp u Ho. split; [by apply abort_leaves_nothing|apply abort_invisible]. Qed.
+Print Assumptions C17_abort_vanishes.
+
+(* (12) no residue: in every reachable state the committed indexes hold exactly the committed rows
+   (nothing for deleted, uncommitted or aborted rows, no empty bucket) and every live delta
+   belongs to an open transaction. *)
+Theorem C17_no_residue : forall m1 seed ops,
+  Forall op_in_scope ops ->
+  let s := run (init m1 get_skips_repeated_values seed) ops in
+  (forall k v, k ∈ l_get1 v (li s) <-> exists r, rows s !! k = Some r /\ ra r = v) /\
+  (forall v, l_fwd (li s) !! v ≠ Some []) /\
+  (forall k, l_rev (li s) !! k = ra <$> rows s !! k) /\
+  (forall k v, (v, k) ∈ s_ents (si s) <-> exists r, rows s !! k = Some r /\ rb r = v) /\
+  (forall k, s_rev (si s) !! k = rb <$> rows s !! k) /\
+  (forall t, is_Some (lov s !! t) \/ is_Some (sov s !! t) -> is_Some (txs s !! t)).
+Proof. intros m1 seed ops Ho s. apply no_residue. by apply reach_coh. Qed.
+Print Assumptions C17_no_residue.
+
+(* (13) populate equivalence: re-opening the table (bulk populate) yields indexes that answer as
+   the incrementally maintained ones. *)
+Theorem C17_populate_eq : forall m1 seed ops,
+  Forall op_in_scope ops ->
+  let s := run (init m1 get_skips_repeated_values seed) ops in
+  (forall v k, k ∈ l_get1 v (l_populate (rows s)) <-> k ∈ l_get1 v (li s)) /\
+  (forall v k, k ∈ s_get1 v (s_populate (rows s)) <-> k ∈ s_get1 v (si s)) /\
+  (forall desc cursor, map snd (walk_full desc cursor (s_ents (s_populate (rows s)))) ≡ₚ
+                       map snd (walk_full desc cursor (s_ents (si s)))).
+Proof. intros m1 seed ops Ho s. apply populate_eq. by apply reach_coh. Qed.
+Print Assumptions C17_populate_eq.
+
+(* F21 (fixed in /repo, 98c2e16): with the pinned upstream Get a value listed twice is answered
+   twice — Count 2 against the scan's 1. The model's [dedup = false] keeps the old code. *)
+Theorem C17_repeated_value_refuted :
+  let s := init false false f21_seed in
+  q_cnt (run_query s O (build f21_filter)) = 2%nat /\
+  q_cnt (run_query s O (mk_pred (holds f21_filter))) = 1%nat.
+Proof. exact dup_values_refuted. Qed.
+Print Assumptions C17_repeated_value_refuted.
+
+(* F22 (known finding): when U commits entirely between T's kv commit and T's index flush and
+   both wrote key 1, the table keeps U's row, the index keeps T's value: the indexed query for
+   U's value is empty, the scan finds the row. Hence the guard [op_in_scope] (no Commit2) in
+   (5)-(8), (12), (13) — these are the [_partial] statements of the property over schedules. *)
+Theorem C17_crossed_commit_refuted :
+  let s := run (init false true f22_seed) f22_ops in
+  q_rows (run_query s O (build (FIdx IA [3]))) = [] /\
+  q_rows (run_query s O (mk_pred (holds (FIdx IA [3])))) = [Row 1 3 3 0] /\
+  l_rev (li s) !! 1%N = Some 2 /\ (ra <$> rows s !! 1%N) = Some 3.
+Proof. exact crossed_commit_refuted. Qed.
+Print Assumptions C17_crossed_commit_refuted.
+
+(* Non-vacuity: an in-scope history over pre-existing rows with two interleaved transactions
+   (one commits, one aborts), colliding and changing indexed values, a replicated write and a
+   re-open; the hypotheses of (6)/(8) hold and the answers differ between readers. *)
+Definition ex_seed : list row := [Row 1 1 3 0; Row 2 1 3 1; Row 3 2 0 2].
+Definition ex_ops : list op :=
+  [Begin 1; Begin 2;
+   UpdateK 1 2 (Some 2) (Some 5) None; Create 2 [Row 4 1 1 0]; DeleteK 2 [1%N];
+   Repl [(5%N, Some (Row 5 1 4 1))];
+   Commit 1; Reopen].
+Definition ex_f : ftree := FAnd [FIdx IA [1; 2]; FNot (FIdx IB [0])].
+Example C17_nonvacuous :
+  Forall op_in_scope (firstn 7 ex_ops) /\
+  (let s := run (init false true ex_seed) (firstn 6 ex_ops) in
+   map rk (sort_rows (q_rows (run_query s 0 (build ex_f)))) = [1; 2; 5]%N /\
+   map rk (sort_rows (q_rows (run_query s 1 (build ex_f)))) = [1; 2; 5]%N /\
+   map rb (sort_rows (q_rows (run_query s 1 (build ex_f)))) = [3; 5; 4] /\
+   map rk (sort_rows (q_rows (run_query s 2 (build ex_f)))) = [2; 4; 5]%N) /\
+  (let s := run (init false true ex_seed) ex_ops in
+   map rk (sort_rows (q_rows (run_query s 0 (build ex_f)))) = [1; 2; 5]%N /\
+   map rb (sort_rows (q_rows (run_query s 0 (build ex_f)))) = [3; 5; 4]).
+Proof.
+  split; [|vm_compute; auto].
+  repeat constructor; simpl; auto.
+  intros k r H. apply elem_of_list_singleton in H. by injection H as -> ->.
+Qed.
